@@ -93,4 +93,11 @@ _c('C01', 'Proved: sorting by a total, transitive order that is antisymmetric on
    'Coq proof (permutation-invariance of sorted traversals and commuting folds) + regenerated iteration-site inventory decided by vm_compute + multi-hash-seed differential runs',
    'The syntactic inventory recognises hash-ordered receivers by field name; initialisation-time sampling helpers are classed SetupOnly.')
 
+_c('C16', 'PARTIAL by nature (a Gallina model is immutable, so the violation cannot even be expressed in it). Proved: the frame theorem of a small object-heap language (an activation that writes only into objects it allocated itself leaves every earlier object untouched) '
+          'and, by vm_compute over inventories regenerated from the current sources, that every in-place mutation site of the simulation core is a write into a fresh local object / an exception annotation / an __init__ of self / inside a reconciled non-state region, '
+          'and that no record type is a mutable dataclass except the reporting summary. Not proved: faithfulness of the syntactic inventory and CPython\'s enforcement of frozen types (trusted). The implementation is checked by deep fingerprints of every retained state '
+          'before/after all later operations and by replaying saved states.',
+   'Coq proof of a heap frame theorem + regenerated mutation-site / record-type inventories decided by vm_compute + retained-state fingerprint engine',
+   'Partial: see Props/C16.v.')
+
 NOT_CLAIMED = {}
